@@ -26,6 +26,7 @@ for it in range(N):
         cash = float(rs.choice([0.0, 0.0, round(float(rs.uniform(0.05, 0.6)), 2)]))
         st.temp = {"weights": dict(zip(sel, map(float, w)))}
         if cash: st.temp["cash"] = cash
+        if rs.rand() < 0.4: st.adjust(float(rs.choice([0.05, -0.02])) * float(st.value))          # capital moved earlier in the stack: the tree is stale when Rebalance starts, the targets are weights of the refreshed value
         A.Rebalance()(st)
         evals += 1; distinct.add((k, cash > 0, step))
         for nm in names:
@@ -41,6 +42,10 @@ for it in range(N):
         for nm, w_ in (("a", 0.5), ("b", 0.25)):
             if abs(float(st.children[nm].weight) - (1 - cfrac) * w_) > 1e-9: fails.append(dict(clause="rebalance-hits-(1-cash)w-and-closes-others", child=nm, got=float(st.children[nm].weight), want=(1 - cfrac) * w_, cash=cfrac, step=step, same_dict_reused=True))
         if keep != {"a": 0.5, "b": 0.25}: fails.append(dict(clause="target-weights-handed-over-are-not-modified", now=dict(keep)))
+    # a held child cut down to a sliver of its holding is cut down to it, not closed
+    sliver = (1 - cfrac) * 0.5 * 4e-6
+    st.temp = {"weights": {"a": sliver}}; A.Rebalance()(st); evals += 1
+    if abs(float(st.children["a"].weight) - sliver) > 1e-12: fails.append(dict(clause="rebalance-hits-(1-cash)w-and-closes-others", child="a", got=float(st.children["a"].weight), want=sliver, note="target far below the holding"))
     if it < 2: samples.append(dict(final_weights={n: float(c.weight) for n, c in st.children.items()}))
     # RebalanceOverTime over n periods with moving prices
     n = int(rs.randint(2, 5)); data = mkdata(n + 3)
